@@ -229,6 +229,17 @@ def chunk(ns_old, off, n):
     return VSeq(smt.s_slice(b.t, (i + off).t, (i + off + n).t), 'byte', 'bytearray')
 
 
+def sub_frame(result, bytes_, start):
+    """byte groups of a returned sub-string decode like the same groups of the buffer it was cut from (for nested
+    parsers: Parser(p.getVarBytes(2)))"""
+    from pyvc.values import fresh_name
+    a, e = z3.Int(fresh_name('sa')), z3.Int(fresh_name('se'))
+    st = _lift(start).t
+    return VBool(z3.ForAll([a, e], z3.Implies(z3.And(0 <= a, a <= e, e <= smt.slen(result.t)),
+                                              smt.s_val(smt.s_slice(result.t, a, e)) == smt.s_val(smt.s_slice(bytes_.t, st + a, st + e))),
+                           patterns=[smt.s_slice(result.t, a, e)]))
+
+
 def short(ns, n):
     """fewer than n bytes left"""
     return pf(ns, 'index') + n > S.len_(pf(ns, 'bytes'))
@@ -248,6 +259,7 @@ contract(C + 'Parser.getFixBytes',
          result=T.bytes(), modifies=[('self', 'index')],
          ensures=lambda ns: S.And(S.seq_eq(ns.result, chunk(ns.old, 0, ns.lengthBytes)),
                                   S.len_(ns.result) == ns.lengthBytes, S.is_bytes(ns.result),
+                                  sub_frame(ns.result, pf(ns.old, 'bytes'), pf(ns.old, 'index')),
                                   p_advanced(ns, ns.lengthBytes)),
          raises={DecodeError: ('iff', lambda ns: short(ns, ns.lengthBytes))},
          exc_ensures=p_same, prop=PROP,
@@ -297,6 +309,7 @@ contract(C + 'Parser.getVarBytes',
          ensures=lambda ns: (lambda n: S.And(
              S.seq_eq(ns.result, chunk(ns.old, ns.lengthLength, n)),
              S.len_(ns.result) == n, S.is_bytes(ns.result),
+             sub_frame(ns.result, pf(ns.old, 'bytes'), pf(ns.old, 'index') + ns.lengthLength),
              p_advanced(ns, ns.lengthLength + n)))(lenfield(ns.old, ns.lengthLength)),
          raises={DecodeError: ('iff', lambda ns: var_short(ns, ns.lengthLength))},
          exc_ensures=p_mono, prop=PROP,
